@@ -39,7 +39,10 @@
  * May need to modify this to include new compiler-specific defines.
  * Alternatively, define __LITTLE_ENDIAN__ or __BIG_ENDIAN__ in your
  * compiler flags when you compile this library */
-#if defined(__x86_64) || defined(__x86_64__) || \
+#if (defined(__BYTE_ORDER__) && __BYTE_ORDER__ == 4321) || \
+    defined(__BIG_ENDIAN__) || defined(__ARMEB__) || defined(__m68k__)
+/* Big endian; tested first because ARM cores can run in either byte order */
+#elif defined(__x86_64) || defined(__x86_64__) || \
     defined(__i386) || defined(__i386__) || \
     defined(__AVR__) || defined(__arm) || defined(__arm__) || \
     defined(_M_AMD64) || defined(_M_X64) || defined(_M_IX86) || \
@@ -47,9 +50,6 @@
     (defined(__BYTE_ORDER__) && __BYTE_ORDER__ == 1234) || \
     defined(__LITTLE_ENDIAN__)
 #define LW_UTIL_LITTLE_ENDIAN 1
-#elif (defined(__BYTE_ORDER__) && __BYTE_ORDER__ == 4321) || \
-    defined(__BIG_ENDIAN__) || defined(__m68k__)
-/* Big endian */
 #else
 #error "Cannot determine the endianess of this platform"
 #endif
